@@ -157,6 +157,10 @@ def check(case: Dict[str, Any]) -> CaseInfo:
                         classes.append("zero_length_copy")
                     if any(a is not b and a[0] < b[1] and b[0] < a[1] for a in copies for b in copies):
                         classes.append("overlapping_copies")
+                    named = [(r.ts, r.ts + max(r.dur, 1), r.name) for r in rows if r.stream != -1 and vocab.kernel_type(r.name) == vocab.MEMORY
+                             and vocab.MEMCPY_CLASS[r.name] == cls]
+                    if any(a[2] != b[2] and a[0] < b[1] and b[0] < a[1] for a in named for b in named):
+                        classes.append("overlapping_copies_same_type_different_names")
                 if len(mb) >= 2:
                     classes.append("multi_copy_type")
         # ---------------- counter file ----------------
@@ -198,7 +202,8 @@ def check(case: Dict[str, Any]) -> CaseInfo:
 
 @st.composite
 def c14_case(draw):
-    o = Opts(steps=[0, 1], w_launch=8, w_sync=1, w_op=3, max_top=5, streams=3, second_thread=False)
+    o = Opts(steps=[0, 1], w_launch=8, w_sync=1, w_op=3, max_top=5, streams=3, second_thread=False, memcpy_weight=6,
+             kdurs=[1, 2, 4, 7, 12, 20], memcpy_names=[n for n in vocab.MEMCPY_KERNELS if "HtoD" in n] + vocab.MEMCPY_KERNELS[:1])
     case = draw(sim_case(o, max_ranks=2))
     all_ranks = [r["rank"] for r in case["ranks"]]
     mode = draw(st.sampled_from(["none", "empty", "subset", "all", "all"]))
@@ -219,5 +224,6 @@ def view(case):
 def campaigns(tier: str) -> List[Campaign]:
     return [Campaign("counters", c14_case(), check, quick=400, thorough=20000, quick_shards=8,
                      required_classes={"launch_and_start_same_instant": 0.15, "multi_stream": 0.2, "zero_length_copy": 0.03,
-                                       "counter_file": 0.5, "shared_instant": 0.3, "multi_copy_type": 0.05},
+                                       "counter_file": 0.5, "shared_instant": 0.3, "multi_copy_type": 0.05,
+                                       "overlapping_copies_same_type_different_names": 0.02},
                      sample_view=view)]
